@@ -117,14 +117,32 @@ func c14faulty(c *wk.Ctx, i int, rng *rand.Rand) {
 		}
 		return p, before, nil
 	}
+	statsOn := rng.Intn(3) == 0
+	resubscribed := 0
 	subscribe := func() (*sub, error) {
 		p, conn, err := connect()
 		if err != nil {
 			return nil, err
 		}
-		_, ch, err := p.SubscribeLevel()
+		if statsOn && rng.Intn(2) == 0 {
+			// the generic statistics switch of the object (every incoming message then travels in a
+			// per-message wrapper of its connection)
+			p.EnableStats(true)
+		}
+		cancel, ch, err := p.SubscribeLevel()
 		if err != nil {
 			return nil, err
+		}
+		if rng.Intn(3) == 0 {
+			// subscribe, cancel, subscribe again on the same connection: still ONE subscription
+			cancel()
+			for range ch {
+			}
+			_, ch, err = p.SubscribeLevel()
+			if err != nil {
+				return nil, err
+			}
+			resubscribed++
 		}
 		s := &sub{conn: conn}
 		go func() {
@@ -273,6 +291,10 @@ func c14faulty(c *wk.Ctx, i int, rng *rand.Rand) {
 		}
 	}
 	c.Count("faulty_link_histories", 1)
+	c.Count("subscribers_that_cancelled_and_subscribed_again", int64(resubscribed))
+	if statsOn {
+		c.Count("histories_with_object_statistics_enabled", 1)
+	}
 	c.Count("faulty_link_accepted_writes", int64(len(accepted)))
 	if len(accepted) > healthyBefore {
 		c.Nontrivial(wk.Hash64("C14faulty", i))
